@@ -468,14 +468,33 @@ class Assembler:
         try:
             find_fn(repo_file, container, name)
         except AnchorError as e:
-            # the function is gone (removed or renamed): nothing can be emitted for it.  Its obligations are reported as
-            # undecided; calls to a new helper of a covered file are inlined by R13, anything else surfaces as a
-            # front-end error in the callers
+            # RENAMED?  If exactly one function of the container that has no contract in this template has the body the
+            # missing one had when the baseline was written, the contract moves to the new name.
+            try:
+                base = json.load(open(os.path.join(SPECS, 'baseline_functions.json')))
+            except Exception:
+                base = {}
+            want_body = (base.get(qual) or {}).get('body') if isinstance(base.get(qual), dict) else None
+            if want_body:
+                src_, items_ = load(repo_file)
+                cands = []
+                for c in containers(items_, container):
+                    for it2 in (items_ if c is None else c.children()):
+                        if it2.kind == 'fn' and it2.name not in self.covered.get(repo_file, set()) and hashlib.sha256(it2.body.encode()).hexdigest()[:16] == want_body:
+                            cands.append(it2.name)
+                if len(cands) == 1:
+                    self.renamed = getattr(self, 'renamed', []) + [{'fn': qual, 'now': cands[0]}]
+                    self.rule_counts['Rrename'] = self.rule_counts.get('Rrename', 0) + 1
+                    return self.do_fn_guarded(repo_file, container, cands[0], opts, ann, tline)
+            # GONE (removed, or folded into its callers): nothing can be emitted for it and its obligations have no
+            # subject any more.  They were there to carry its callers, which must now prove their own contracts from
+            # the code that replaced the call; a new function of a closed container that is neither inlined by R13 nor
+            # matched as a rename stops the unit (`//@closed`).
             obs = {}
             for (tl, ln) in ann:
                 m = re.search(r'//\s*@ob\s+(\S+)\s+(\S+)\s*$', ln)
                 if m: obs[m.group(2)] = m.group(1).split(',')
-            self.degraded = getattr(self, 'degraded', []) + [{'fn': qual, 'reason': 'function no longer exists under this name: ' + str(e), 'obligations': obs, 'safety': list(opts.get('safety', [])), 'gone': True}]
+            self.gone = getattr(self, 'gone', []) + [{'fn': qual, 'reason': 'function no longer exists: ' + str(e), 'void_obligations': sorted(obs)}]
             return
         if reason is None:
             snap = (len(self.out), len(self.map), len(self.functions), dict(self.obligations), len(self.fn_ranges), dict(self.rule_counts),
@@ -653,6 +672,7 @@ class Assembler:
         ls = it.line_span()
         self.functions.append({'fn': qual, 'file': repo_file, 'lines': ls,
                                'sha256': hashlib.sha256(it.proper.encode()).hexdigest()[:16],
+                               'body_sha': hashlib.sha256(it.body.encode()).hexdigest()[:16],
                                'rules': counts, 'rebound': rebound,
                                'annotated_body': bool(loops) or any(a != '<start>' for (_, a, _, _) in proofs) or bool(closures)})
         for k, v in counts.items():
@@ -864,7 +884,7 @@ def assemble(unit, outdir, probe=False, degrade=None):
     os.makedirs(outdir, exist_ok=True)
     out_rs = os.path.join(outdir, unit + '.rs')
     open(out_rs, 'w').write('\n'.join(a.out) + '\n')
-    meta = {'unit': unit, 'assumed_fns': getattr(a, 'assumed', []), 'degraded_fns': getattr(a, 'degraded', []), 'functions': a.functions, 'items': a.items_used, 'rules': a.rule_counts,
+    meta = {'unit': unit, 'assumed_fns': getattr(a, 'assumed', []), 'degraded_fns': getattr(a, 'degraded', []), 'gone_fns': getattr(a, 'gone', []), 'renamed_fns': getattr(a, 'renamed', []), 'functions': a.functions, 'items': a.items_used, 'rules': a.rule_counts,
             'obligations': a.obligations, 'fn_ranges': a.fn_ranges,
             'line_ob': {str(k + 1): m['ob'] for k, m in enumerate(a.map) if m['ob']},
             'line_origin': [m['origin'] for m in a.map]}
